@@ -30,7 +30,10 @@ class Spec:
 class Stream:
     """One correspondence stream: cases run by harness mode `mode` and by Gallina function `runner`."""
     def __init__(self, name, mode, imports, runner, gen, oracle=None, nontrivial=None, as_limit_gb=None,
-                 shard=400, rust_shards=1, scope="N_scope", canon=None):
+                 shard=400, rust_shards=1, scope="N_scope", canon=None, reference=False):
+        # reference=True: the Gallina side is the specification the property is stated against (RefDB), so
+        # an answer that differs from it is itself an input on which the implementation breaks the property
+        self.reference = reference
         self.name, self.mode, self.imports, self.runner, self.gen = name, mode, imports, runner, gen
         self.oracle, self.nontrivial, self.as_limit_gb = oracle, nontrivial, as_limit_gb
         self.shard, self.rust_shards, self.scope, self.canon = shard, rust_shards, scope, canon
@@ -207,6 +210,21 @@ def run_property(spec, tier, seed):
             "property": pid, "kind": "implementation violates the property on this input",
             "stream": st.name, "harness_mode": st.mode, "case": c.rust, "implementation": il, "model": ml,
             "why": why, "count": len(new_oracle), "seed": seed,
+            "replay": "%s/debug/axv %s <file with the case line> /dev/stdout" % (core.TARGET, st.mode)})
+        print("VIOLATION property=%s replay=%s" % (pid, path))
+        rc = 1
+    elif new_dis and new_dis[0][0] is not None and new_dis[0][0].reference:
+        st, c, il, ml = new_dis[0]
+        seg_i, seg_m = il.split(" | "), (ml or "").split(" | ")
+        first = next((i for i, (a, b) in enumerate(zip(seg_i, seg_m)) if a != b), min(len(seg_i), len(seg_m)))
+        acts = c.rust.split(" | ")[1:]
+        path = core.write_replay(pid, "failing_input", {
+            "property": pid, "kind": "implementation answers differently from the reference semantics on this history",
+            "stream": st.name, "harness_mode": st.mode, "case": c.rust, "implementation": il, "reference": ml,
+            "first_difference": {"action_index": first, "action": acts[first] if first < len(acts) else None,
+                                 "implementation": seg_i[first] if first < len(seg_i) else None,
+                                 "reference": seg_m[first] if first < len(seg_m) else None},
+            "count": len(new_dis), "seed": seed,
             "replay": "%s/debug/axv %s <file with the case line> /dev/stdout" % (core.TARGET, st.mode)})
         print("VIOLATION property=%s replay=%s" % (pid, path))
         rc = 1
